@@ -70,6 +70,8 @@ impl SecondaryTransaction {
     ) -> StorageResult<Self> {
         // pin a snapshot at version manager
         let pin_version = table.version.pin();
+        #[cfg(risinglight_verif)]
+        crate::verif::gate("txn.start.pinned").await;
         Ok(Self {
             finished: false,
             mem: None,
@@ -119,6 +121,8 @@ impl SecondaryTransaction {
 
     async fn commit_inner(mut self) -> StorageResult<()> {
         self.flush_rowset().await?;
+        #[cfg(risinglight_verif)]
+        crate::verif::gate("txn.commit.flushed").await;
 
         // flush deletes to disk
         let mut delete_split_map = HashMap::new();
@@ -160,6 +164,8 @@ impl SecondaryTransaction {
             dvs.push(DeleteVector::new(dv_id, rowset_id, deletes));
         }
 
+        #[cfg(risinglight_verif)]
+        crate::verif::gate("txn.commit.dv_written").await;
         let mut changeset = vec![];
 
         match rowsets[..] {
@@ -226,6 +232,8 @@ impl SecondaryTransaction {
         let mut iters: Vec<RowSetIterator> = vec![];
 
         if let Some(rowsets) = self.snapshot.get_rowsets_of(self.table.table_id()) {
+                #[cfg(risinglight_verif)]
+                crate::verif::gate("txn.scan.rowset").await;
             for rowset_id in rowsets {
                 let rowset = self.version.get_rowset(self.table.table_id(), *rowset_id);
 
@@ -329,6 +337,8 @@ impl SecondaryTransaction {
             if !self.table.storage_options.disable_all_disk_operation {
                 tokio::fs::create_dir(&directory).await?;
             }
+            #[cfg(risinglight_verif)]
+            crate::verif::gate("txn.append.dir_created").await;
 
             self.mem = Some(SecondaryMemRowsetImpl::new(
                 self.table.columns.clone(),
